@@ -90,6 +90,15 @@ ApplyOpenX(x, op) ==
   ELSE IF x.s.armed THEN Arrive(x, op.c, op.what)
   ELSE [x EXCEPT !.s.parked = Append(@, [c |-> op.c, what |-> op.what])]
 
+\* what a client sends on a connection that still waits in the listener is
+\* kept by the transport and read once the connection is taken on
+Parked(x, c) == \E i \in 1..Len(x.s.parked) : x.s.parked[i].c = c
+StimX(x, op) ==
+  LET s == x.f[op.c]
+  IN IF s.st = "none" /\ Parked(x, op.c) /\ op.op = "send"
+     THEN EnvSend(s, op.what, op.r, op.svc)
+     ELSE Stim(s, op)
+
 \* dvA: D_accept_not_resumed in force (nothing wakes the accept loop when a
 \* connection ends)
 ApplyX(x, op, dvA) ==
@@ -111,7 +120,7 @@ ApplyX(x, op, dvA) ==
                                  !.f = [c \in Conns |-> IF x.f[c].st = "open"
                                                          THEN Settle([x.f[c] EXCEPT !.itmo = IdleDefault])
                                                          ELSE x.f[c]]])
-             [] OTHER -> [x EXCEPT !.f[op.c] = Settle(Stim(x.f[op.c], op))]
+             [] OTHER -> [x EXCEPT !.f[op.c] = Settle(StimX(x, op))]
   IN IF ~dvA /\ ~y.s.armed /\ Live(y.f) < Live(x.f) THEN Wake(y) ELSE y
 
 ApplyDg(d, op) ==
@@ -161,7 +170,9 @@ ConnOps(x) ==
                  r \in {rr \in DOMAIN S(c).tasks : S(c).tasks[rr].permits < Len(S(c).tasks[rr].items)}}
               : c \in Conns},
        {Op("credit", c, "", 0, "") : c \in {d \in Conns : S(d).st = "open" /\ x.credit < MaxCredit}},
-       {Op("abort", c, "", 0, "") : c \in {d \in Conns : S(d).st = "open" /\ ~S(d).ab}},
+       \* (a peer that waits in the listener of some world stays)
+       {Op("abort", c, "", 0, "") : c \in {d \in Conns : S(d).st = "open" /\ ~S(d).ab
+                                                          /\ \A y \in worlds : ~Parked(y, d)}},
        IF ~x.down /\ x.aerr < 2 THEN {Op("accepterr", 0, "", 0, "")} ELSE {},
        IF x.tick < MaxTick /\ \E c \in Conns : S(c).st = "open"
          THEN {Op("halftick", 0, "", 0, "")} ELSE {},
